@@ -104,6 +104,7 @@ class stv_run_step:
     returns = Profile
     forall = dict(k=Seq(CSet))
     pure_unless = "store_states"  # frame (C09): nothing of self is stored outside `if store_states:`
+    modifies = ("election_states",)  # the frame callers rely on: every other field keeps its entry value (obligation frame[self.<f> unchanged])
 
     def requires(self, profile, prev_state, store_states):
         return (self.score_function is first_place_votes and len(self.election_states) >= 1
